@@ -136,6 +136,7 @@ structure St where
   additional : Node → Option Val := fun _ => none      -- _additional_data
   invCount   : Node → Nat := fun _ => 0                -- number of on_node_start per node
   hideCount  : Node → Nat := fun _ => 0                -- ghost: how often `hide_last_execution` hit the node
+  badOrd     : Bool := false                           -- ghost: the oracle supplied a launch order `validOrder` rejects
   tasks      : List Task := []
   outcome    : Option Outcome := none                  -- how the caller's task ended
 
@@ -162,6 +163,9 @@ def St.setOutcome (s : St) (o : Outcome) : St := { s with outcome := some o }
 def St.markProcessed (s : St) (n : Node) : St :=
   { s with proc := upd s.proc n true, procHid := upd s.procHid n false,
            invCount := upd s.invCount n (s.invCount n + 1) }
+
+/-- ghost: remember that the oracle supplied a launch order the model rejects -/
+def St.noteOrder (s : St) (ok : Bool) : St := if ok then s else { s with badOrd := true }
 
 def hasError (s : St) (d : DagRef) : Bool := d.nodes.any s.isErr                     -- __has_subgraph_error
 
@@ -391,6 +395,7 @@ def dagLaunch (c : Ctx) (d : DagRef) (below : List Frame) : St → List Obs → 
 def dagInit (c : Ctx) (s : St) (obs : List Obs) (d : DagRef) (below : List Frame) : Out :=
   let obs := obs ++ [.topo c.ord]
   let obs := if validOrder c.P s d c.ord then obs else obs ++ [.badOracle]
+  let s := s.noteOrder (validOrder c.P s d c.ord)
   let s := if d.isRec then s.hide c.ord else s
   match c.ord with
   | [] => retTo c s obs below .none
